@@ -8,7 +8,7 @@ EXPECTED = {
     "__init__": [
         "super().__init__()",
         "self.num_thresholds = len(init_thresholds)",
-        "if not slope > 0:\n    raise ValueError('slope must be positive')",       # guard (F41): the model assumes slope > 0
+        "if not 0 < slope < torch.finfo(torch.float32).max:\n    raise ValueError('slope must be positive and finite')",       # guard (F41, F62): the model assumes a positive real slope
         "self.slope = slope",
         "self._frozen = False",
         "init_t = torch.tensor(init_thresholds, dtype=torch.float32)",
